@@ -74,6 +74,39 @@ int main() {
       emit("c20 substr " + hex(s) + " " + std::to_string(a) + " " + std::to_string(b), hex(Substr(s, StrRange{ a, b })));
     }
   }
+  // every well-formed lead byte: the first scalar value of each lead byte 0xC2..0xF4, the boundary
+  // scalar values of every length class, and random scalar values of every class, in small contexts
+  {
+    auto enc = [](uint32_t cp) {
+      std::string o;
+      if (cp < 0x80) o.push_back(static_cast<char>(cp));
+      else if (cp < 0x800) { o.push_back(static_cast<char>(0xC0 | (cp >> 6))); o.push_back(static_cast<char>(0x80 | (cp & 0x3F))); }
+      else if (cp < 0x10000) { o.push_back(static_cast<char>(0xE0 | (cp >> 12))); o.push_back(static_cast<char>(0x80 | ((cp >> 6) & 0x3F))); o.push_back(static_cast<char>(0x80 | (cp & 0x3F))); }
+      else { o.push_back(static_cast<char>(0xF0 | (cp >> 18))); o.push_back(static_cast<char>(0x80 | ((cp >> 12) & 0x3F))); o.push_back(static_cast<char>(0x80 | ((cp >> 6) & 0x3F))); o.push_back(static_cast<char>(0x80 | (cp & 0x3F))); }
+      return o;
+    };
+    std::vector<uint32_t> cps = { 0x7F, 0x80, 0x7FF, 0x800, 0x905, 0xFFF, 0x1000, 0xCFFF, 0xD000, 0xD7FF, 0xE000, 0xFFFD, 0xFFFF, 0x10000, 0x3FFFF, 0x40000, 0xFFFFF, 0x100000, 0x10FFFF };
+    for (uint32_t lead = 0xC2; lead <= 0xDF; ++lead) cps.push_back((lead - 0xC0) << 6);
+    for (uint32_t lead = 0xE0; lead <= 0xEF; ++lead) { const uint32_t cp = lead == 0xE0 ? 0x800 : (lead - 0xE0) << 12; if (cp < 0xD800 || cp > 0xDFFF) cps.push_back(cp); }
+    for (uint32_t lead = 0xF0; lead <= 0xF4; ++lead) cps.push_back(lead == 0xF0 ? 0x10000 : (lead - 0xF0) << 18);
+    for (const auto cp : cps) {
+      const auto c = enc(cp);
+      strOps(c, 0, 2);
+      strOps("a" + c + "b", 0, 4);
+      strOps(c + c, 0, 3);
+    }
+    static const std::vector<std::pair<uint32_t, uint32_t>> classes = { { 0x80, 0x7FF }, { 0x800, 0xFFF }, { 0x1000, 0xD7FF }, { 0xE000, 0xFFFF }, { 0x10000, 0x3FFFF }, { 0x40000, 0xFFFFF }, { 0x100000, 0x10FFFF } };
+    for (int i = 0; i < (deep ? 3000 : 300); ++i) {
+      std::string t; const int n = rng.range(1, 5);
+      for (int k = 0; k < n; ++k) {
+        if (rng.chance(1, 4)) { t += "a"; continue; }
+        const auto& cl = rng.pick(classes);
+        t += enc(static_cast<uint32_t>(rng.range(static_cast<int>(cl.first), static_cast<int>(cl.second))));
+      }
+      strOps(t, 0, n + 1);
+    }
+  }
+
   // malformed stream: arbitrary bytes (model is a transcription, so it must agree here too)
   for (int i = 0; i < (deep ? 20000 : 2000); ++i) {
     std::string s; const int n = rng.range(1, 7);
